@@ -33,7 +33,7 @@ ASSUMPTIONS = [
 ]
 MUST_REACH = {
     "roundtrips": 400, "templates_covered": 481, "zerocoded": 20, "with_acks": 20, "with_extra": 20,
-    "fill_cases": 50, "fill_unset_fixed": 1, "fill_unset_variable": 1, "omitted_trailing": 5, "count_255": 1, "count_0": 5,
+    "fill_cases": 50, "fill_mixed_marks_in_one_list": 10, "failed_serializations_before_good_ones": 30, "fill_unset_fixed": 1, "fill_unset_variable": 1, "omitted_trailing": 5, "count_255": 1, "count_0": 5,
     "ref_bytes_equal": 400,
 }
 
@@ -70,6 +70,27 @@ def type_class(var):
     return var.type.name
 
 
+def _provoke_failure(ctx):
+    from hippolyzer.lib.base.message.message import Message, Block
+    k = ctx.counters.get("failed_serializations_before_good_ones", 0) % 3
+    if k == 0:      # a variable left unset in a block that is not marked for filling, after some body bytes were produced
+        bad = Message("ChatFromViewer", Block("AgentData", AgentID="00000000-0000-0000-0000-000000000001",
+                                              SessionID="00000000-0000-0000-0000-000000000002"),
+                      Block("ChatData", Message="oops", Type=1), packet_id=1)
+    elif k == 1:    # out-of-range value
+        bad = Message("ChatFromViewer", Block("AgentData", AgentID="00000000-0000-0000-0000-000000000001",
+                                              SessionID="00000000-0000-0000-0000-000000000002"),
+                      Block("ChatData", Message="oops", Type=70000, Channel=0), packet_id=1)
+    else:           # a block the template does not have
+        bad = Message("CompletePingCheck", Block("PingID", PingID=1), Block("NoSuchBlock", X=1), packet_id=1)
+    try:
+        _ser.serialize(bad)
+    except Exception:
+        ctx.count("failed_serializations_before_good_ones")
+    else:
+        ctx.count("bad_messages_accepted")
+
+
 def check_spec(ctx, spec):
     tmpl = gen_msg.DEFAULT_TEMPLATE_DICT[spec["name"]]
     ctx.ev()
@@ -79,6 +100,10 @@ def check_spec(ctx, spec):
     except Exception as e:
         ctx.violation("build-raises", "building an in-domain Message raised", {"spec": spec, "exc": repr(e)})
         return
+    # the serializer is a long-lived object in real use (one per circuit / proxy): every now and then a call on it fails
+    # (a message somebody built wrongly); what it encodes afterwards must not depend on that
+    if ctx.counters.get("roundtrips", 0) % 9 == 0:
+        _provoke_failure(ctx)
     try:
         data = bytes(_ser.serialize(msg))
     except Exception as e:
@@ -160,6 +185,9 @@ def check_spec(ctx, spec):
                 ctx.count("count_255")
             if len(entries) == 0:
                 ctx.count("count_0")
+    if spec.get("fill_mixed") and any(e and len(e) > 1 and any(v[0] == "unset" for ent in e[1:] for v in ent.values())
+                                      for (_, e) in spec["blocks"]):
+        ctx.count("fill_mixed_marks_in_one_list")
     if spec.get("fill"):
         ctx.count("fill_cases")
         for t in _unset_types(tmpl, spec):
@@ -259,6 +287,8 @@ def run(ctx):
             opts = {"max_var_len": 1 << 16}
             if k % 5 == 4:
                 opts["fill_missing"] = True
+                if (k // 5) % 2:
+                    opts["fill_mixed"] = True
             spec = gen_msg.limit_for_zerocode(rng, tmpl, opts)
             check_spec(ctx, spec)
             covered.add(tmpl.name)
